@@ -509,4 +509,50 @@ theorem gridEq_spec {α : Type} [BEq α] [LawfulBEq α] (a b : Grid α)
     rw [grid_eq_iff]
     simp [h]
 
+/-! ## output -/
+
+theorem printRec_spec {α : Type} {g : Grid α} {v : Pos → α} (hg : Denotes g v) (sh : α → String) :
+    ∀ (level : Nat) (pre suf : Pos), level ≤ g.size.length → pre.length = level →
+      InBox (zeros (g.size.drop level)) (g.size.drop level) suf →
+      g.printRec sh level (pre ++ suf) = .ok (render (fun p => sh (v p)) (g.size.take level).reverse suf) := by
+  intro level
+  induction level with
+  | zero =>
+    intro pre suf _ hp hb
+    have : pre = [] := List.eq_nil_of_length_eq_zero hp
+    subst this
+    simp only [List.drop_zero] at hb
+    simp only [Grid.printRec, List.nil_append, get_of_denotes hg hb, List.take_zero, List.reverse_nil, render]
+    rfl
+  | succ level ih =>
+    intro pre suf hle hp hb
+    have hlt : level < g.size.length := by omega
+    have hsz : g.size[level]? = some g.size[level] := List.getElem?_eq_getElem hlt
+    have hset : ∀ i : Int, (pre ++ suf).set level i = pre.take level ++ (i :: suf) := by
+      intro i
+      rw [List.set_append_left _ _ (by omega), List.set_eq_take_append_cons_drop]
+      have : pre.drop (level + 1) = [] := List.drop_eq_nil_of_le (by omega)
+      simp [hp, this]
+    have hparts : (List.range g.size[level].toNat).mapM
+        (fun (i : Nat) => g.printRec sh level ((pre ++ suf).set level (i : Int)))
+        = .ok ((List.range g.size[level].toNat).map
+            fun (i : Nat) => render (fun p => sh (v p)) (g.size.take level).reverse ((i : Int) :: suf)) := by
+      apply mapM_ok
+      intro i hi
+      have hi' : i < g.size[level].toNat := List.mem_range.mp hi
+      rw [hset]
+      apply ih (pre.take level) ((i : Int) :: suf) (by omega) (by simp [hp])
+      rw [List.drop_eq_getElem_cons hlt]
+      simp only [zeros, List.map_cons, InBox]
+      exact ⟨by omega, by omega, hb⟩
+    simp only [Grid.printRec, hsz, bind, Except.bind, hparts, List.take_succ_eq_append_getElem hlt,
+      List.reverse_append, List.reverse_cons, List.reverse_nil, List.nil_append, List.cons_append, render]
+    rfl
+
+theorem output_spec {α : Type} {g : Grid α} {v : Pos → α} (hg : Denotes g v) (sh : α → String) :
+    g.output sh = .ok (render (fun p => sh (v p)) g.size.reverse []) := by
+  have := printRec_spec hg sh g.size.length (zeros g.size) [] (Nat.le_refl _) (length_zeros _)
+    (by simp [zeros, InBox])
+  simpa [Grid.output] using this
+
 end Fcppt.C08
